@@ -437,8 +437,17 @@ pub fn record(args: &[String]) -> i32 {
         let mut pre = w.project();
         let mut hist: Vec<J> = vec![];
         let mut live_ctx = xml_xpath::eval::model::Context::default();
-        for _ in 0..len {
-            let mut c = random_call(&w, &mut rng);
+        // every second history opens with a scripted prefix that a random writer meets too rarely: a node replaced by
+        // its look-alike (same kind, same name / data, another node), then the random calls take over
+        let script: Vec<J> = if !with_c15 && !merged && h % 2 == 0 {
+            vec![json!({"op": "append_child", "r": 4, "n": 17}), json!({"op": "replace_child", "r": 4, "n": 28, "old": 17}),
+                 json!({"op": "append_child", "r": 7, "n": 18}), json!({"op": "replace_child", "r": 7, "n": 29, "old": 18}),
+                 json!({"op": "insert_before", "r": 4, "n": 20, "ref": 7}), json!({"op": "replace_child", "r": 4, "n": 30, "old": 20})]
+        } else {
+            vec![]
+        };
+        for step in 0..(len + script.len()) {
+            let mut c = if step < script.len() { script[step].clone() } else { random_call(&w, &mut rng) };
             if with_c15 {
                 // the DOCTYPE stays where it is: a document whose declarations were taken away while references to them
                 // remain is outside C15's quantifier (creation, insertion and data-editing calls)
